@@ -1,3 +1,3 @@
 From Coq Require Import ExtrOcamlBasic.
-From HV Require Import Base.BSet Gen.Tables Text.TypeOrder Topo.Dump Topo.WFCheck Topo.Obj Text.LinuxParse.
-Extraction "c18_model.ml" wf_check levels_agree model_levels dump_levels cpumask_parse cpulist_parse print_cpumask print_cpulist disallowed_check.
+From HV Require Import Base.BSet Gen.Tables Text.TypeOrder Topo.Dump Topo.WFCheck Topo.Obj Text.LinuxParse Text.LinuxNode.
+Extraction "c18_model.ml" wf_check levels_agree model_levels dump_levels cpumask_parse cpulist_parse print_cpumask print_cpulist disallowed_check linux_node_requests first_mismatch chain_ok.
